@@ -1,18 +1,31 @@
-import PytaskProofs.Lemmas.EngineProtocol
+import PytaskProofs.Lemmas.EngineScratch
 /-!
 # C02 — an incremental build leaves what a from-scratch build would leave
 
-Model: M6 (`PytaskModel/Engine.lean`). A file's *state* is its content id (sha256 collision freedom
-is trusted). Edits are therefore *honest* by construction (a content change is a state change; the
-`(path, mtime)` memo of `hash_path`, finding F4, is the subject of C12) and dependency sets are
-static (directory patterns, finding F11, are the subject of C18).
+Model: M6 (`PytaskModel/Engine.lean`): world = files (`node ↦ content id`) + state table
+(`(task, neighbour) ↦ recorded state`). A file's *state* is its content id (sha256 collision freedom
+is the trusted `sha_inj`), therefore
+
+* every edit is **honest** by construction — a content change is a state change. The `(path, mtime)`
+  memo of `hash_path` (a rewrite that restores the old mtime is not seen: finding **F4**) is outside
+  this model and is the subject of C12;
+* dependency sets are **static** — the project `P` is fixed along a history; a directory pattern whose
+  match set shrinks (finding **F11**) is outside this model and is the subject of C18. Edits are
+  arbitrary changes of file contents: inputs, module files (the body function `F` receives the module
+  content, so changing a task's code is a content edit), products (tamper / delete), and loss of the
+  state table.
+
+That is why the main theorem is called `C02_partial`: it is the property for honest edits and static
+dependency sets. Within the model nothing else is assumed about pytask; assumed about *task bodies*:
+`BodiesTotal` (a body that returns has written all its products — the premise under which "what a
+from-scratch build would produce" is defined) and about collection: `WF` (unique ids, …).
 -/
 namespace Pytask
 open Engine
 
-/-- **C02_equiv** (the "equivalently" clause). A protocol reports `SKIP_UNCHANGED` for `t` only if
-the build is not forced and, at `t`'s setup, every tracked neighbour (dependency, product of an
-`after` target, the task's module, product) exists, has a recorded row, and its current content
+/-- **C02_equiv** (the "equivalently" clause, one protocol). `SKIP_UNCHANGED` is reported for `t`
+only if the build is not forced and, at `t`'s setup, every tracked neighbour (dependency, product of
+an `after` target, the task's module, product) exists, has a recorded row, and its current content
 equals that row: never "unchanged" while something differs from what was recorded or was never
 recorded. -/
 theorem C02_equiv (F : BodyFn) (P : Project) (g : G) (cfg : Cfg) (s : Sess) (t : TaskSpec)
@@ -20,5 +33,142 @@ theorem C02_equiv (F : BodyFn) (P : Project) (g : G) (cfg : Cfg) (s : Sess) (t :
     (hnew : (t.id, Outcome.skipUnchanged) ∉ s.reports) :
     cfg.force = false ∧ RowsMatch P g s.w t.id :=
   protocol_unchanged_sound F P g cfg s t h hnew
+
+/-- **C02_equiv_build** (whole build, every legal schedule). If `build` reports `t` as
+SKIP_UNCHANGED, then `--force` was off and the rows of `t` matched in the session state the loop
+had reached when `t` was picked. -/
+theorem C02_equiv_build (F : BodyFn) (P : Project) (cfg : Cfg) (w : World) (picks : List Nat) (r : Result)
+    (t : Nat) (h : build F P cfg w picks = .ok r) (hrep : (t, Outcome.skipUnchanged) ∈ r.reports) :
+    cfg.force = false ∧ ∃ g marks so pre post so1 s1, createDag P cfg = .ok (g, marks) ∧
+      Sorter.fromDag g isTaskV (prioFn P) = .ok so ∧ picks = pre ++ t :: post ∧
+      buildLoop F P g cfg so { w := w, skipMarks := marks } pre = .ok (so1, s1) ∧ RowsMatch P g s1.w t := by
+  rcases build_cases h with ⟨_, _, hr, _⟩ | ⟨g, marks, so, so', s, hdag, hso, hloop, _, _, hr, _, _⟩
+  · rw [hr] at hrep; cases hrep
+  · rw [hr] at hrep
+    rcases buildLoop_report_origin picks _ hloop hrep with h0 | ⟨pre, post, hp, hall⟩
+    · cases h0
+    · simp only at hp hall
+      rw [hp] at hloop
+      obtain ⟨so1, s1, spec, hpre, hfind, _⟩ := buildLoop_split pre hloop
+      have hout := hall so1 s1 spec hpre hfind
+      obtain ⟨hf, hrows⟩ := unchanged_rowsMatch F P g cfg s1 spec hout.symm
+      rw [find?_id hfind] at hrows
+      exact ⟨hf, g, marks, so, pre, post, so1, s1, hdag, hso, hp, hpre, hrows⟩
+
+/-! ## the invariant -/
+
+/-- **inv_init.** An empty state table (first build, or `.pytask` deleted) is coherent. -/
+theorem C02_inv_init (F : BodyFn) (P : Project) : DbCoherent F P [] := by
+  intro t _ _ p i _ hp hrow
+  cases hrow
+
+/-- **inv_edit.** An edit is any change of file contents — create, rewrite, delete; inputs, module
+files, products. It does not touch the state table, and `DbCoherent` speaks about the table only;
+`Inv` (next theorem) compares rows with the *current* contents, so it holds after the edit as well. -/
+theorem C02_inv_edit (F : BodyFn) (P : Project) (w : World) (fs' : FS) (h : DbCoherent F P w.db) :
+    DbCoherent F P ({ w with fs := fs' } : World).db := h
+
+/-- **inv_protocol.** One task protocol — any configuration, any outcome — keeps the table coherent. -/
+theorem C02_inv_protocol (F : BodyFn) (P : Project) (cfg : Cfg) (g : G) (marks : List Nat) (s : Sess)
+    (t : TaskSpec) (hwf : WF P) (hbt : BodiesTotal P) (hdag : createDag P cfg = .ok (g, marks))
+    (ht : t ∈ P.tasks) (hc : DbCoherent F P s.w.db) : DbCoherent F P (protocol F P g cfg s t).w.db :=
+  coherent_protocol F P g cfg s t hwf hbt (graphOK_of_createDag hwf hdag) ht hc
+
+/-- **inv_build.** A whole `build` — any options (force, dry-run, `-k`/`-m` selections, failure
+limits), any failures (bodies raising early or late, failing loads / saves, missing inputs), every
+schedule the loop accepts, also when the DAG is rejected — keeps the table coherent. -/
+theorem C02_inv_build (F : BodyFn) (P : Project) (cfg : Cfg) (w : World) (picks : List Nat) (r : Result)
+    (hwf : WF P) (hbt : BodiesTotal P) (h : build F P cfg w picks = .ok r)
+    (hc : DbCoherent F P w.db) : DbCoherent F P r.w.db := by
+  rcases build_cases h with ⟨hw, _, _, _⟩ | ⟨g, marks, so, so', s, hdag, _, hloop, hw, _, _, _, _⟩
+  · rw [hw]; exact hc
+  · rw [hw]
+    exact coherent_buildLoop F P g cfg hwf hbt (graphOK_of_createDag hwf hdag) picks so so' _ s hloop hc
+
+/-- Worlds reachable by a history of edits and builds (static project `P`). -/
+inductive History (F : BodyFn) (P : Project) : World → Prop
+  | init (fs : FS) : History F P ⟨fs, []⟩
+  | edit {w : World} (fs' : FS) : History F P w → History F P { w with fs := fs' }
+  | dbLost {w : World} : History F P w → History F P { w with db := [] }
+  | build {w : World} (cfg : Cfg) (picks : List Nat) (r : Result) :
+      History F P w → Engine.build F P cfg w picks = .ok r → History F P r.w
+
+theorem C02_history_coherent {F : BodyFn} {P : Project} (hwf : WF P) (hbt : BodiesTotal P) {w : World}
+    (h : History F P w) : DbCoherent F P w.db := by
+  induction h with
+  | init fs => exact C02_inv_init F P
+  | edit fs' _ ih => exact ih
+  | dbLost _ _ => exact C02_inv_init F P
+  | build cfg picks r _ hb ih => exact C02_inv_build F P cfg _ picks r hwf hbt hb ih
+
+/-- **Inv after any history.** In every world reachable by edits and builds: whenever all rows of a
+task (not marked `persist`) match the current contents, each of its products holds
+`F t i (module content) (dependency contents)` — "unchanged" is never claimed for a stale product. -/
+theorem C02_inv (F : BodyFn) (P : Project) (cfg : Cfg) (g : G) (marks : List Nat) (w : World)
+    (hwf : WF P) (hbt : BodiesTotal P) (hdag : createDag P cfg = .ok (g, marks)) (h : History F P w) :
+    Inv F P g w :=
+  inv_of_coherent hwf (graphOK_of_createDag hwf hdag) (C02_history_coherent hwf hbt h)
+
+/-! ## incremental = from scratch -/
+
+/-- **C02_partial.** After any history of (honest) edits and builds over the (static) project, take
+a non-dry build with any other options and any legal schedule. For every task `t` such that `t` and
+every task upstream of it through product chains is not marked `persist` and was reported SUCCESS or
+SKIP_UNCHANGED (so: it was not skipped — by a marker, a selection, a failed or skipped ancestor —
+and did not fail): each product of `t` holds exactly its from-scratch content `Scratch` w.r.t. the
+current contents of the files no task produces. -/
+theorem C02_partial (F : BodyFn) (P : Project) (cfg : Cfg) (w : World) (picks : List Nat) (r : Result)
+    (hwf : WF P) (hbt : BodiesTotal P) (hhist : History F P w)
+    (h : build F P cfg w picks = .ok r) (hdry : cfg.dry = false) (t : TaskSpec) (ht : t ∈ P.tasks)
+    (hup : ∀ u ∈ P.tasks, UpTo P u.id t.id → u.persist = false ∧
+      ((u.id, Outcome.success) ∈ r.reports ∨ (u.id, Outcome.skipUnchanged) ∈ r.reports)) :
+    ∀ p i, (p, i) ∈ t.prods.zipIdx → ∃ v, lookup r.w.fs p = some v ∧ Scratch F P r.w.fs p v := by
+  have hc := C02_inv_build F P cfg w picks r hwf hbt h (C02_history_coherent hwf hbt hhist)
+  rcases build_cases h with ⟨_, _, hr, _⟩ | ⟨g, marks, so, so', s, hdag, hso, hloop, hw, _, hr, _, _⟩
+  · have := (hup t ht (UpTo.refl _)).2
+    rw [hr] at this
+    rcases this with h | h <;> cases h
+  · rw [hw] at hc ⊢
+    rw [hr] at hup
+    exact final_scratch hwf (graphOK_of_createDag hwf hdag) hdry hso hloop rfl hc t hup t ht (UpTo.refl _)
+
+/-- **C02_success** (the headline form). If the build reports *every* task as SUCCESS or
+SKIP_UNCHANGED (exit code 0, nothing skipped, nothing persisted), every declared product of every
+task holds its from-scratch content. -/
+theorem C02_success (F : BodyFn) (P : Project) (cfg : Cfg) (w : World) (picks : List Nat) (r : Result)
+    (hwf : WF P) (hbt : BodiesTotal P) (hhist : History F P w)
+    (h : build F P cfg w picks = .ok r) (hdry : cfg.dry = false)
+    (hall : ∀ u ∈ P.tasks, u.persist = false ∧
+      ((u.id, Outcome.success) ∈ r.reports ∨ (u.id, Outcome.skipUnchanged) ∈ r.reports)) :
+    ∀ t ∈ P.tasks, ∀ p i, (p, i) ∈ t.prods.zipIdx →
+      ∃ v, lookup r.w.fs p = some v ∧ Scratch F P r.w.fs p v :=
+  fun t ht => C02_partial F P cfg w picks r hwf hbt hhist h hdry t ht (fun u hu _ => hall u hu)
+
+/-- **C02_vs_fresh_build.** The same statement without the specification: an incremental build
+(after any history) and *any other* build — e.g. a real from-scratch build: empty state table,
+products deleted — that both report `t` and its upstream tasks as SUCCESS / SKIP_UNCHANGED and whose
+final worlds agree on the files no task produces, leave the same contents in `t`'s products. -/
+theorem C02_vs_fresh_build (F : BodyFn) (P : Project) (cfg cfg' : Cfg) (w w' : World) (picks picks' : List Nat)
+    (r r' : Result) (hwf : WF P) (hbt : BodiesTotal P) (hhist : History F P w) (hhist' : History F P w')
+    (h : build F P cfg w picks = .ok r) (h' : build F P cfg' w' picks' = .ok r')
+    (hdry : cfg.dry = false) (hdry' : cfg'.dry = false) (t : TaskSpec) (ht : t ∈ P.tasks)
+    (hup : ∀ u ∈ P.tasks, UpTo P u.id t.id → u.persist = false ∧
+      ((u.id, Outcome.success) ∈ r.reports ∨ (u.id, Outcome.skipUnchanged) ∈ r.reports))
+    (hup' : ∀ u ∈ P.tasks, UpTo P u.id t.id → u.persist = false ∧
+      ((u.id, Outcome.success) ∈ r'.reports ∨ (u.id, Outcome.skipUnchanged) ∈ r'.reports))
+    (hinputs : ∀ n, (∀ u ∈ P.tasks, n ∉ u.prods) → lookup r'.w.fs n = lookup r.w.fs n) :
+    ∀ p ∈ t.prods, lookup r.w.fs p = lookup r'.w.fs p := by
+  intro p hp
+  obtain ⟨i, hpi⟩ := exists_zipIdx_of_mem hp
+  obtain ⟨v, hv, hs⟩ := C02_partial F P cfg w picks r hwf hbt hhist h hdry t ht hup p i hpi
+  obtain ⟨v', hv', hs'⟩ := C02_partial F P cfg' w' picks' r' hwf hbt hhist' h' hdry' t ht hup' p i hpi
+  have huniq : ∀ t ∈ P.tasks, ∀ u ∈ P.tasks, ∀ p, p ∈ t.prods → p ∈ u.prods → t = u := by
+    rcases build_cases h with ⟨_, _, hr, _⟩ | ⟨g, marks, _, _, _, hdag, _, _, _, _, _, _, _⟩
+    · have := (hup t ht (UpTo.refl _)).2
+      rw [hr] at this
+      rcases this with h | h <;> cases h
+    · exact (graphOK_of_createDag hwf hdag).uniqueProducer
+  have := scratch_functional hwf huniq (scratch_congr hwf hinputs hs) v' hs'
+  rw [hv, hv', this]
 
 end Pytask
